@@ -176,6 +176,15 @@ def programs():
                                                          [("decl", lt, "l", ("list", ty, [a, v2])),
                                                           ("expr", ("call", "fn_ref", [("p", ("bin", "index", ("var", "l"), ("int", 1)))]))]
                                                          + dump("l", lt) + dump("a", ty))
+                # iterating over a local list of a function while the body changes an element of that list through a Referenz
+                # parameter (or assigns to it): the loop hands out the elements the list had on entry
+                fr = dict(name="fn_ref", params=[("p", ty, True)], ret="N", body=mut(("var", "p")))
+                for how, chg in (("ref", [("expr", ("call", "fn_ref", [("p", ("bin", "index", ("var", "ll"), ("int", 2)))]))]),
+                                 ("assign", [("assign", ("bin", "index", ("var", "ll"), ("int", 2)), v2)])):
+                    fl = dict(name="fn_lokal", params=[("u", "Z", False)], ret="N",
+                              body=[("decl", lt, "ll", ("list", ty, [a, a, a])),
+                                    ("foreach", ty, "x", None, ("var", "ll"), chg + dump("x", ty))] + dump("ll", lt))
+                    yield lab + ":foreach-local-part-" + how, prog([da], [fr, fl], [("expr", ("call", "fn_lokal", [("u", ("int", 0))]))])
                 # iterating: the loop variable is a copy, and the operand is evaluated once
                 yield lab + ":foreach-var", prog([da], [], [("decl", lt, "l", ("list", ty, [a, v2])),
                                                             ("foreach", ty, "x", None, ("var", "l"), mut(("var", "x")) + dump("x", ty))] + dump("l", lt))
